@@ -33,6 +33,7 @@ ASSUMPTIONS = [
     "errors (calibration / training failure) are counted, not demanded; crashes are violations",
 ]
 
+E2_BUDGET = 40  # executions per E2 work item before the rest of the subtree is re-queued
 DEFAULT = dict(folds=3, cap=None, workers=1, seed=1, est="linear", key=2, files="1", fmt="pin", pred_chunk=None, read_chunk=None)
 DEVS = (
     [("folds", f) for f in (2, 4, 5, 6)]
@@ -350,10 +351,10 @@ def e2_worker(item):
                     f"different from the sequential run" + (f": {exc}" if exc else ""),
                     {"e2": case, "focus": focus, "schedule": list(exe.choices), "granularity": gran}))
 
-        n, capped = sched.explore(body, focus, bound, on_exec, granularity=gran, root_prefix=root,
-                                  cap=case.get("cap_per_subtree"))
-        if capped:
-            acc.caps.append(f"E2 subtree focus={focus} capped at {n} executions")
+        # a budget of executions per work item; what is left of the subtree goes back to the parent's queue
+        n, more = sched.explore(body, focus, bound, on_exec, granularity=gran, root_prefix=root, cap=E2_BUDGET)
+        if more:
+            acc.payload.extend((case, focus, bound, gran, list(pfx), ref_hash) for pfx in sched.explore.remaining)
     finally:
         set_chunks(**DEFAULT_CHUNKS)
         shutil.rmtree(work, ignore_errors=True)
@@ -448,7 +449,11 @@ def run(ctx):
         items2, info = e2_plan(ctx, case, bounds)
         e2_items += items2
         infos.append(info)
-    ctx.pmap(e2_worker, e2_items)
+    while e2_items:  # work items hand back the unexplored rest of their subtree: re-queue until nothing is left
+        before = len(ctx.acc.payload)
+        ctx.pmap(e2_worker, e2_items)
+        e2_items = ctx.acc.payload[before:]
+        del ctx.acc.payload[before:]
     ctx.seed = save
     ex = ctx.acc.extra
     ctx.info["states"] = ex.get("e2_executions", 0) + ctx.acc.classes.get("result_full", 0)
